@@ -32,7 +32,7 @@ NoInt  == F2 = W2                     \* INT_NBITS = 0
 OneInt == 2 * F2 = W2                 \* INT_NBITS = 1
 IntLsb == IF NoInt THEN 0 ELSE F2
 FracMsb == IF F2 >= 2 THEN F2 \div 2 ELSE 0
-AInt   == Wrap(a - (a % F2))                               \* self.int(): bits & INT_MASK read back in two's complement (the mask is 0 without integer bits)
+AInt   == IF NoInt THEN 0 ELSE a - (a % F2)               \* self.int(): bits & INT_MASK (the mask is 0 without integer bits; otherwise the floor is representable)
 AFrac  == a % F2                                           \* bits & FRAC_MASK
 Inc    == Wrap(IntLsb)                                     \* from_bits(INT_LSB): -1 unit for a signed type with one integer bit
 \* @type: (Int, Int) => <<Int, Bool>>;
